@@ -4,10 +4,11 @@ of its property, revert.  Prints one line per seed; exit 1 if a seed is no longe
 usage: tools/reseed.py [--seeds=0,1,2] [seed ids ...]   (--seeds: run each check with several VERIF_SEED values)"""
 import json, os, subprocess, sys
 V = os.path.dirname(os.path.dirname(os.path.abspath(__file__)))
+REPO = os.environ.get("EMD_REPO", "/repo")      # a scratch clone may be used (with a copy of /verif) to run regressions in parallel
 def sh(cmd, **kw):
     return subprocess.run(cmd, shell=True, capture_output=True, text=True, **kw)
-if sh("git -C /repo status --porcelain").stdout.strip():
-    print("/repo is not clean"); sys.exit(2)
+if sh(f"git -C {REPO} status --porcelain").stdout.strip():
+    print(REPO, "is not clean"); sys.exit(2)
 args = [a for a in sys.argv[1:] if not a.startswith("--seeds=")]
 seeds = next((a.split("=")[1].split(",") for a in sys.argv[1:] if a.startswith("--seeds=")), [None])
 ids = args or sorted(os.listdir(os.path.join(V, "seeded")))
@@ -15,7 +16,7 @@ missed = []
 for sid in ids:
     d = os.path.join(V, "seeded", sid)
     pid = sid.split("_")[0]
-    if sh(f"git -C /repo apply {d}/patch.diff").returncode != 0:
+    if sh(f"git -C {REPO} apply {d}/patch.diff").returncode != 0:
         print(sid, "patch does not apply"); missed.append(sid); continue
     try:
         for sd in seeds:
@@ -28,8 +29,8 @@ for sid in ids:
             if not caught:
                 missed.append(sid if sd is None else f"{sid}@seed{sd}")
     finally:
-        sh("git -C /repo checkout -- .")
+        sh(f"git -C {REPO} checkout -- .")
         sh(f"rm -rf {V}/replays")
-sh("git -C /repo checkout -- .")
+sh(f"git -C {REPO} checkout -- .")
 print("missed:", missed)
 sys.exit(1 if missed else 0)
